@@ -460,7 +460,7 @@ func (c *Ctx) mrScan(l *mrLoop, info *types.Info, body ast.Node, t *taint, local
 							// slice local to the iteration: propagate taint (already done), not a sink by itself
 							continue
 						}
-						if depth == 0 && scope != nil && lobj != nil && sortedAfter(info, fnBody, scope, lobj) {
+						if depth == 0 && scope != nil && lobj != nil && c.sortedAfter(info, fnBody, scope, lobj) {
 							l.reasons = append(l.reasons, "append to "+lobj.Name()+" is followed by a sort before any other use")
 							continue
 						}
@@ -668,7 +668,7 @@ func (c *Ctx) mrCall(l *mrLoop, info *types.Info, call *ast.CallExpr, t *taint, 
 
 // sortedAfter: in the block that contains `after`, the first following statement that mentions obj
 // is a call sort.X(obj, ...) / slices.Sort*(obj) / obj-taking sort of the repo's sort package.
-func sortedAfter(info *types.Info, fnBody *ast.BlockStmt, after ast.Stmt, obj types.Object) bool {
+func (c *Ctx) sortedAfter(info *types.Info, fnBody *ast.BlockStmt, after ast.Stmt, obj types.Object) bool {
 	st := stackTo(fnBody, after)
 	if st == nil {
 		return false
@@ -702,6 +702,11 @@ func sortedAfter(info *types.Info, fnBody *ast.BlockStmt, after ast.Stmt, obj ty
 					if fn := calleeOf(info, call); fn != nil && fn.Pkg() != nil {
 						p := fn.Pkg().Path()
 						if (p == "sort" || p == "slices") && len(call.Args) > 0 {
+							if lit := lessOfSortCall(info, call); lit != nil {
+								if v, _ := c.lessVerdict(info, lit); v == "lossy" {
+									return false // a comparator that lets elements tie keeps the map order among them
+								}
+							}
 							if id := baseIdent(call.Args[0]); id != nil && info.Uses[id] == obj {
 								return true
 							}
